@@ -130,7 +130,38 @@ func pkgDirOf(pkg string) string {
 }
 
 // nativeReplay runs the vector against the natively compiled code.
+// simReplay: a C17 counterexample says "the application never re-initialises the library after
+// a block". It is replayed against the real program: the simulation is built from repoDir and
+// run with 4 validators for 13 s (block interval 5 s); the violation reproduces iff no node
+// accepts a block above height 1.
+func simReplay(v string) (*replayOutcome, error) {
+	cmd := exec.Command("go", "run", "./internal/simulation", "-count", "4", "-watchers", "0", "-duration", "13s")
+	cmd.Dir = repoDir
+	out, _ := cmd.CombinedOutput()
+	re := regexp.MustCompile(`received block\s*\{[^}]*"height": (\d+)`)
+	maxH, n := 0, 0
+	for _, m := range re.FindAllStringSubmatch(string(out), -1) {
+		h, _ := strconv.Atoi(m[1])
+		n++
+		if h > maxH {
+			maxH = h
+		}
+	}
+	ro := &replayOutcome{raw: string(out)}
+	if n == 0 {
+		return ro, fmt.Errorf("the simulation did not accept any block in 13 s:\n%s", tail(string(out), 10))
+	}
+	if maxH <= 1 {
+		ro.Failed = []string{"C17.reinitialised"}
+	}
+	ro.Covers = []string{fmt.Sprintf("real simulation run: %d blocks accepted, highest height %d", n, maxH)}
+	return ro, nil
+}
+
 func nativeReplay(vecPath, pkg string) (*replayOutcome, error) {
+	if strings.HasSuffix(pkg, "internal/simulation") {
+		return simReplay(vecPath)
+	}
 	tmp, err := os.MkdirTemp("", "gosx-replay-")
 	if err != nil {
 		return nil, err
